@@ -8,7 +8,7 @@
     value, 0 when the worker lacks the skill or is ABSENCE), each multiplied, by position, with
     the paired facility's skill (`plainF`) when the task needs a facility.
   * `Perform.preCost m p s` is the live state at the cost/perform boundary of `stepBody`
-    (`l4` in the model): `compCheck (chkWorking (allocate? (absenceSet s.live)))`.
+    (`l4` in the model): `compCheck (chkWorking? (allocate? (absenceSet s.live)))`.
 -/
 import PDesy.Lemmas.Perform
 import PDesy.Props.C08
@@ -183,13 +183,20 @@ example : (initProject demo true true St.fresh).live.rem 0 = 2 := by decide +ker
 
 /-! ### 6. one loop step, and the trace -/
 
-/-- the state `preCost` abbreviates, spelled out as in `stepBody` -/
+/-- the state `preCost` abbreviates, spelled out as in `stepBody`: `check_state(WORKING)` runs
+on working steps and, when automatic tasks are performed during absence, on absence steps; at a
+project absence step with the flag off nothing starts -/
 theorem C02_preCost_eq (s1 : St) :
     preCost m p s1 =
-      compCheck m (chkWorking m
-        (if workingAt p s1.time then
-          allocate m s1.logs p.rule (absenceSet m s1.time (workingAt p s1.time) s1.live)
-         else absenceSet m s1.time (workingAt p s1.time) s1.live)) := rfl
+      compCheck m
+        (if workingAt p s1.time || p.autoFlag then chkWorking m
+          (if workingAt p s1.time then
+            allocate m s1.logs p.rule (absenceSet m s1.time (workingAt p s1.time) s1.live)
+           else absenceSet m s1.time (workingAt p s1.time) s1.live)
+         else
+          (if workingAt p s1.time then
+            allocate m s1.logs p.rule (absenceSet m s1.time (workingAt p s1.time) s1.live)
+           else absenceSet m s1.time (workingAt p s1.time) s1.live)) := rfl
 
 /-- **C02 (step).**  One loop step (`stepBody`, from any state `s1`, in particular
 `s1 = updated m s`) lowers the remaining work of task `t` by `contrib m l4 t` exactly when
